@@ -74,7 +74,7 @@ def check_mono(ctx, vals, phase):
     return any(vals[k + 1] - vals[k] > 1e-9 * (1 + abs(vals[k])) for k in range(len(vals) - 1))
 
 
-@REG.obligation("phase_marginals_monotone_and_fit_is_their_composition", g_train, quick=300, thorough=6000,
+@REG.obligation("phase_marginals_monotone_and_fit_is_their_composition", g_train, quick=700, thorough=9000,
                 shard_size=40)
 def c_train(ctx, case):
     """Drive the public per-phase steps; every M-step leaves the phase marginal equal or higher; fit == composition."""
@@ -135,3 +135,23 @@ def c_train(ctx, case):
         a, b = np.asarray(getattr(f, name), float), np.asarray(getattr(m, name), float)
         ctx.close(a, b, "fit(em_iterations=%d) %s vs composition of public steps" % (case["em"], name), rtol=1e-9,
                   atol=1e-11 * (np.abs(b).max() + 1e-300))
+
+
+@REG.obligation("fit_v_trajectory_monotone", g_train, quick=200, thorough=4000, shard_size=40)
+def c_fit_v(ctx, case):
+    """V after fit(em_iterations=k), k=1..K (same initial state): the V-phase marginal never decreases in k."""
+    p = case["ubm"]
+    y = np.asarray(case["y"])
+    X = sut.sessions_of(case)
+    classes = classes_of(case)
+    mean, sig = p["means"].ravel(), p["variances"].ravel()
+    base = fresh(case)
+    vals = [ref.jfa_marginal_v(mean, sig, np.array(base.V), classes)]
+    K = max(2, case["em"])
+    for k in range(1, K + 1):
+        c2 = dict(case, em=k)
+        f = fresh(c2)
+        f.fit(X, y)
+        vals.append(ref.jfa_marginal_v(mean, sig, np.array(f.V), classes))
+    inc = check_mono(ctx, vals, "V(fit)")
+    ctx.note(inc, "K=%d" % K)
